@@ -30,9 +30,22 @@ def base_case(s1, s2, S=1, inner="sq", w=0, pen=0, ms=0, md=0, mld=-1, psi=(0, 0
             "mld": mld, "psi": list(psi), "prune": prune}
 
 
+def _exact_euclid(c):
+    import math
+    if c["inner"] != "eu" or len(c["s1"][0]) == 1:
+        return True
+    for p in c["s1"]:
+        for q in c["s2"]:
+            s = sum((a - b) ** 2 for a, b in zip(p, q))
+            if math.isqrt(s) ** 2 != s:
+                return False
+    return True
+
+
 def with_ids(cases, prefix):
     for n, c in enumerate(cases):
         c["id"] = "%s%d" % (prefix, n)
+        assert _exact_euclid(c), "point alphabet must have integer Euclidean distances"
     return cases
 
 
